@@ -34,10 +34,12 @@ IsPrefix(p, n) == Len(p) <= Len(n) /\ \A i \in 1..Len(p) : p[i] = n[i]
 Produce(n, ver, h, len) == pubs' = Ext(pubs, n, Ext(IF n \in DOMAIN pubs THEN pubs[n] ELSE Empty, ver, [hash |-> h, len |-> len]))
 RemoveObj(n) == pubs' = Drop(pubs, {n})
 \* one consume run: exactly one completion; the newest version, byte for byte; an error iff nothing is published
+\* (e.lossy: the network lost a segment beyond the retry budget -- the one completion must then be an error)
 ConsumeOK(e) ==
   /\ e.completions = 1
   /\ e.chunksInOrder
-  /\ IF e.n \in DOMAIN pubs /\ DOMAIN pubs[e.n] # {}
+  /\ IF e.lossy THEN e.err # "" ELSE
+     IF e.n \in DOMAIN pubs /\ DOMAIN pubs[e.n] # {}
      THEN LET newest == pubs[e.n][MaxS(DOMAIN pubs[e.n])]
           IN e.err = "" /\ e.hash = newest.hash /\ e.len = newest.len
      ELSE e.err # ""
